@@ -153,6 +153,8 @@ pub fn longest_match(
         !terminators.is_empty(),
         parse_context,
     );
+    #[cfg(sqruff_verif)]
+    verif_switches::loc_audit(segments, idx, loc_key, parse_context);
 
     let mut best_match = MatchResult::empty_at(idx);
     let mut best_matcher = None;
@@ -781,6 +783,68 @@ pub mod verif_switches {
                     if st.2.is_none() {
                         st.2 = Some(format!("key {key} at token {idx}: cached {c} / recomputed {f}"));
                     }
+                }
+            }
+        });
+    }
+
+    // ---- audit of the location keys: does a key identify (token, slice length) within one parse?
+    /// what the audit of one parse saw
+    #[derive(Debug, Clone, Default)]
+    pub struct LocAudit {
+        /// `longest_match` calls that interned a location
+        pub calls: usize,
+        /// largest size of the location table / of the memo table seen
+        pub max_locations: usize,
+        pub max_cache_entries: usize,
+        /// longest slice matched against
+        pub max_slice_len: u64,
+        /// calls whose key was handed out earlier in this parse for another (raw, working location, type, slice length)
+        pub reused_for_other_location: usize,
+        /// calls whose key does not lead back to the (raw, working location, type, slice length) it was requested for
+        pub unfaithful: usize,
+        pub first: Option<String>,
+    }
+    type LocTuple = (smol_str::SmolStr, (usize, usize), u16, u64);
+    thread_local! {
+        static LOC_AUDIT: RefCell<Option<(LocAudit, ahash::AHashMap<u32, LocTuple>)>> = const { RefCell::new(None) };
+    }
+    /// start auditing location keys on this thread
+    pub fn loc_audit_start() {
+        LOC_AUDIT.with(|a| *a.borrow_mut() = Some((LocAudit::default(), ahash::AHashMap::new())));
+    }
+    pub fn loc_audit_take() -> LocAudit {
+        LOC_AUDIT.with(|a| a.borrow_mut().take().map(|x| x.0).unwrap_or_default())
+    }
+    pub fn loc_audit(segments: &[ErasedSegment], idx: u32, loc: u32, parse_context: &ParseContext) {
+        LOC_AUDIT.with(|a| {
+            let mut a = a.borrow_mut();
+            let Some((st, seen)) = a.as_mut() else { return };
+            let seg = &segments[idx as usize];
+            let Some(pos) = seg.get_position_marker() else { return };
+            let wanted: LocTuple = (seg.raw().clone(), pos.working_loc(), seg.get_type() as u16, segments.len() as u64);
+            st.calls += 1;
+            let (nloc, ncache) = parse_context.verif_table_sizes();
+            st.max_locations = st.max_locations.max(nloc);
+            st.max_cache_entries = st.max_cache_entries.max(ncache);
+            st.max_slice_len = st.max_slice_len.max(wanted.3);
+            let stored = parse_context.verif_loc_data(loc).map(|d| (d.0, d.1, d.2 as u16, d.3));
+            if stored.as_ref() != Some(&wanted) {
+                st.unfaithful += 1;
+                if st.first.is_none() {
+                    st.first = Some(format!("location key {loc} requested at token {idx} for {wanted:?} holds {stored:?}"));
+                }
+            }
+            match seen.get(&loc) {
+                Some(old) if *old != wanted => {
+                    st.reused_for_other_location += 1;
+                    if st.first.is_none() {
+                        st.first = Some(format!("location key {loc} handed out for {old:?} and again (token {idx}) for {wanted:?}"));
+                    }
+                }
+                Some(_) => {}
+                None => {
+                    seen.insert(loc, wanted);
                 }
             }
         });
